@@ -225,6 +225,16 @@ def File.restore (f : File) : File :=
   if f.deleted then { f with deleted := false } else if f.actual = .corrupt then { f with actual := .good } else f
 def File.delete (f : File) : File := { f with deleted := true }
 
+/-- is there a LIVE file of that name among `fs`? -/
+def hasLive (name : String) (fs : List File) : Bool := fs.any (fun x => x.name = name && !x.deleted)
+
+/-- `Folder.restore_file(x.name)` as it reaches file `x` of a folder whose files are `fs`: `get_file(name, include_deleted=True)`
+returns the LIVE file of that name if there is one — so a deleted file that has a live namesake (the old database file after a
+restore replaced it; a file deleted and re-created) is never reached and STAYS deleted; otherwise `File.restore`. (Among several
+deleted files of one name without a live one the code takes the first in deletion order; the model restores all of them — the one
+remaining inexactness, guarded by `Folder.deadTwins`.) -/
+def File.restoreIn (fs : List File) (x : File) : File := if x.deleted && hasLive x.name fs then x else x.restore
+
 /-- The requests of `FileSystemItemABC`. -/
 inductive ItemReq | scan | checkhash | repair | restore | corrupt
 deriving DecidableEq, Repr
@@ -282,7 +292,7 @@ def Folder.restoreFinish (F : Folder) : Folder :=
 /-- `Folder._restoring_timestep` -/
 def Folder.restoreTick (F : Folder) : Folder :=
   if F.restoreCd ≥ 0 then
-    if F.restoreCd - 1 = 0 then { F with restoreCd := 0, files := F.files.map File.restore }.restoreFinish
+    if F.restoreCd - 1 = 0 then { F with restoreCd := 0, files := F.files.map (File.restoreIn F.files) }.restoreFinish
     else { F with restoreCd := F.restoreCd - 1 }
   else F
 
@@ -454,7 +464,7 @@ def Node.apply (n : Node) : Op → Node
     if n.power = .on then n.mapLiveFolder F (fun G => G.mapLiveFile f (fun x => (x.handle r).1)) else n
   | .fsDeleteFile F f => if n.power = .on then n.mapLiveFolder F (fun G => G.mapLiveFile f File.delete) else n
   | .fsDeleteFolder F => if n.power = .on ∧ F ≠ "root" then n.mapLiveFolder F Folder.delete else n
-  | .fsRestoreFile F f => if n.power = .on then n.mapLiveFolder F (fun G => G.mapFile f File.restore) else n
+  | .fsRestoreFile F f => if n.power = .on then n.mapLiveFolder F (fun G => G.mapFile f (File.restoreIn G.files)) else n
   | .fsRestoreFolder F => if n.power = .on then n.mapFolder F Folder.restore else n
   | .fileSet F f h => n.mapFolder F (fun G => G.mapFile f (fun x => { x with actual := h }))
 
